@@ -47,7 +47,10 @@ def run(ctx, rep):
         "the receiver (fresh object / parameter / global), over the call graph, for every read-only entry point: no effect may "
         "land on a Node reached from a parameter or a global, nor on the registry; writes to objects created inside the call "
         "(the per-call Rule, local lists) and to the caller's result lists (errs, warnings, descendants) are allowed")
-    rep.rules_run = ["R1"]
+    rep.rules_run = ["R1", "R2"]
+    if getattr(rep, "only", None) in (None, "R2"):
+        from .c11_worlds import rule_r2
+        rule_r2(ctx, rep)
     rep.assumptions += ["complete up to call resolution (rate reported); externals (lxml, json, re, logging) do not write the model",
                         "the caller-supplied result lists errs / warnings / descendants are not tree state"]
     eff = get_effects(ctx)
